@@ -243,10 +243,10 @@ func c03Cases(tier string) []c03Case {
 		add(c03Case{Label: "duplicate method member", Msg: `{"jsonrpc":"2.0","id":7,"method":"foo/bar","method":"ping"}`, ReqID: "7", Success: true, Codes: []int{-32600, -32601, -32700}, Refuse4xx: true})
 		add(c03Case{Label: "duplicate id member", Msg: `{"jsonrpc":"2.0","id":7,"id":8,"method":"ping"}`, Success: true, Codes: []int{-32600, -32700}, Refuse4xx: true})
 		// handler outcomes
-		for _, hm := range []string{"err", "iserror", "nan", "chan", "nil", "errmulti"} {
+		for _, hm := range []string{"err", "err+result", "iserror", "nan", "chan", "nil", "errmulti"} {
 			c := c03Case{Label: "tools/call handler=" + hm, Msg: mkMsg(7, "tools/call", map[string]interface{}{"name": "t", "arguments": map[string]interface{}{"mode": hm}}, nil), Method: "tools/call", ReqID: "7"}
 			switch hm {
-			case "err":
+			case "err", "err+result": // a handler error is an error, whatever else the handler returned
 				c.Codes, c.MustError, c.MsgPart = []int{-32603}, true, "boom-7f3a"
 			case "errmulti":
 				c.Codes, c.MustError, c.MsgPart = []int{-32603}, true, "line1\nline2   end"
@@ -312,6 +312,8 @@ func c03Register(r *Rig) {
 			return nil, errors.New("line1\nline2   end")
 		case "iserror":
 			return mcp.NewErrorResult("tool-level failure"), nil
+		case "err+result":
+			return mcp.NewTextResult("partial"), errors.New("boom-7f3a")
 		case "nil":
 			return nil, nil
 		case "nan":
